@@ -2293,4 +2293,168 @@ theorem cached_object_call_in_any_world (s : Sig) (body : PDict → Res Val) (un
     · intro hno; simpa [he] using k2 hno
     · intro hex; simpa [he] using k3 hex
 
+/-! ## round k6: the world invariant - every dict of every reachable world holds results of `f` -/
+
+/-- a well-formed world: chains as the constructor builds them, every `cid` names an existing dict, and every dict holds results of
+`g` (for some calls `seen` behind its entries, all with python dicts as arguments) -/
+structure WorldOk (g : Call → Val) (w : MWorld) : Prop where
+  chains : ∀ o ∈ w.objs, (classes o.chain).Nodup
+  cids : ∀ o ∈ w.objs, ∀ i, o.cid = some i → i < w.caches.length
+  holds : ∀ (i : Nat) (d : List (Val × Val)), w.caches[i]? = some d → ∃ seen, CacheHolds g d seen ∧ ∀ x ∈ seen, Call.ok x
+
+/-- the world before anything is built: the plain function, no dict -/
+theorem worldOk_init (g : Call → Val) : WorldOk g {} :=
+  ⟨by intro o ho; simp at ho; subst ho; simp [classes], by intro o ho i hi; simp at ho; subst ho; simp at hi,
+   by intro i d h; simp at h⟩
+
+/-- a step the theorems speak about: a call of an object WITH a cache layer is valid and hashable for that object's stack -/
+def StepValid (s : Sig) (body : PDict → Res Val) (unh : Call → Bool) (w : MWorld) : MStep → Prop
+  | .wrap _ _ _ => True
+  | .call j c => ∀ o above p below, w.objs[j]? = some o → o.chain = above ++ (Cls.cache, p) :: below →
+      HistCallFor (classes (above ++ (Cls.cache, p) :: below)) s body unh above c
+
+theorem hasCacheLayer_not_noCache {ch : List (Cls × PDict)} (h : hasCacheLayer ch = true) (hn : noCache ch) : False := by
+  simp only [hasCacheLayer, List.any_eq_true] at h
+  obtain ⟨x, hx, hc⟩ := h
+  exact hn x hx (by simpa using hc)
+
+/-- the new world after a call of a cached object, explicitly -/
+theorem stepM_call_cached (s : Sig) (body : PDict → Res Val) (unh : Call → Bool) (w : MWorld) (j : Nat) (o : MObj) (c : Call)
+    (ho : w.objs[j]? = some o) (hcl : hasCacheLayer o.chain = true) :
+    let i := o.cid.getD w.caches.length
+    let caches := if o.cid.isSome then w.caches else w.caches ++ [[]]
+    let e := evalH s body unh o.chain { cache := caches[i]?.getD [], evals := w.evals } c
+    stepM s body unh w (.call j c) =
+      some ({ objs := w.objs.set j { o with cid := some i }, caches := caches.set i e.1.cache, evals := e.1.evals },
+            some (e.2, e.1.evals.length)) := by
+  cases hcid : o.cid with
+  | none => simp [stepM, ho, hcl, hcid]
+  | some i => simp [stepM, ho, hcl, hcid]
+
+/-- the invariant after a call of a cached object, for the dict list `caches` and index `i` the call works with -/
+theorem worldOk_after_call (s : Sig) (body : PDict → Res Val) (unh : Call → Bool) (w : MWorld) (j : Nat) (o : MObj) (c : Call)
+    (hw : WorldOk (resultOf s body) w) (hom : o ∈ w.objs)
+    (above below : List (Cls × PDict)) (p : PDict) (hch : o.chain = above ++ (Cls.cache, p) :: below)
+    (ha : noCache above) (hb : noCache below)
+    (hc : HistCallFor (classes (above ++ (Cls.cache, p) :: below)) s body unh above c)
+    (caches : List (List (Val × Val))) (i : Nat) (hlen : w.caches.length ≤ caches.length) (hi : i < caches.length)
+    (hrest : ∀ (k : Nat) (d : List (Val × Val)), k ≠ i → caches[k]? = some d → w.caches[k]? = some d)
+    (seen0 : List Call) (h0 : CacheHolds (resultOf s body) (caches[i]?.getD []) seen0) (hok0 : ∀ x ∈ seen0, Call.ok x) :
+    let e := evalH s body unh o.chain { cache := caches[i]?.getD [], evals := w.evals } c
+    WorldOk (resultOf s body)
+      { objs := w.objs.set j { o with cid := some i }, caches := caches.set i e.1.cache, evals := e.1.evals } := by
+  intro e
+  have hstep := stack_cache_step_from s body unh p above below ha hb
+    { cache := caches[i]?.getD [], evals := w.evals } seen0 h0 hok0 c hc
+  rw [← hch] at hstep
+  refine ⟨?_, ?_, ?_⟩
+  · intro x hx
+    rcases List.mem_or_eq_of_mem_set hx with hx | rfl
+    · exact hw.chains x hx
+    · exact hw.chains o hom
+  · intro x hx k hk
+    simp only [List.length_set]
+    rcases List.mem_or_eq_of_mem_set hx with hx | rfl
+    · exact Nat.lt_of_lt_of_le (hw.cids x hx k hk) hlen
+    · simp only [Option.some.injEq] at hk; subst hk; exact hi
+  · intro k d hk
+    have hk' : (caches.set i e.1.cache)[k]? = some d := hk
+    by_cases hik : i = k
+    · subst hik
+      have h2 : (caches.set i e.1.cache)[i]? = some e.1.cache := by simp [hi]
+      rw [h2] at hk'
+      simp only [Option.some.injEq] at hk'; subst hk'
+      refine ⟨seen0 ++ [reach s above c], hstep.1, ?_⟩
+      intro x hx
+      rcases List.mem_append.1 hx with hx | hx
+      · exact hok0 x hx
+      · simp only [List.mem_singleton] at hx; subst hx; exact hc.2.2
+    · have h2 : (caches.set i e.1.cache)[k]? = caches[k]? := by simp [hik]
+      rw [h2] at hk'
+      exact hw.holds k d (hrest k d (fun e' => hik e'.symm) hk')
+
+/-- **The invariant is kept by every valid step** -/
+theorem worldOk_step (s : Sig) (body : PDict → Res Val) (unh : Call → Bool) (w w' : MWorld) (st : MStep)
+    (out : Option (Res Val × Nat)) (hw : WorldOk (resultOf s body) w) (hv : StepValid s body unh w st)
+    (hs : stepM s body unh w st = some (w', out)) : WorldOk (resultOf s body) w' := by
+  cases st with
+  | wrap cls p src =>
+    simp only [stepM] at hs
+    cases ho : w.objs[src]? with
+    | none => simp [ho] at hs
+    | some o =>
+      simp only [ho, Option.some.injEq, Prod.mk.injEq] at hs
+      obtain ⟨rfl, _⟩ := hs
+      have hom : o ∈ w.objs := List.mem_of_getElem? ho
+      refine ⟨?_, ?_, hw.holds⟩
+      · intro x hx
+        rcases List.mem_append.1 hx with hx | hx
+        · exact hw.chains x hx
+        · simp only [List.mem_singleton] at hx; subst hx
+          exact mk_nodup cls p { chain := o.chain, base := 0 } (hw.chains o hom)
+      · intro x hx i hi
+        rcases List.mem_append.1 hx with hx | hx
+        · exact hw.cids x hx i hi
+        · simp only [List.mem_singleton] at hx; subst hx
+          simp only [mkObj] at hi
+          split at hi
+          · exact hw.cids o hom i hi
+          · cases hi
+  | call j c =>
+    cases ho : w.objs[j]? with
+    | none => simp [stepM, ho] at hs
+    | some o =>
+      have hom : o ∈ w.objs := List.mem_of_getElem? ho
+      cases hcl : hasCacheLayer o.chain with
+      | false =>
+        simp only [stepM, ho, hcl, Bool.false_eq_true, if_false, Option.some.injEq, Prod.mk.injEq] at hs
+        obtain ⟨rfl, _⟩ := hs
+        exact ⟨hw.chains, hw.cids, hw.holds⟩
+      | true =>
+        obtain hnc | ⟨above, p, below, hch, ha, hb⟩ := split_at_cache o.chain (hw.chains o hom)
+        · exact (hasCacheLayer_not_noCache hcl hnc).elim
+        have hc := hv o above p below ho hch
+        rw [stepM_call_cached s body unh w j o c ho hcl] at hs
+        cases hcid : o.cid with
+        | none =>
+          simp only [hcid, Option.isSome_none, Bool.false_eq_true, if_false, Option.getD_none, Option.some.injEq,
+            Prod.mk.injEq] at hs
+          obtain ⟨rfl, _⟩ := hs
+          apply worldOk_after_call s body unh w j o c hw hom above below p hch ha hb hc (w.caches ++ [[]]) w.caches.length
+            (by simp) (by simp) ?_ [] (by simpa using cacheHolds_empty _) (by simp)
+          intro k d hk hkd
+          rw [List.getElem?_append] at hkd
+          split at hkd
+          · exact hkd
+          · rename_i hkl
+            have h1 : 1 ≤ k - w.caches.length := by omega
+            simp [List.getElem?_eq_none (l := ([[]] : List (List (Val × Val)))) (by simpa using h1)] at hkd
+        | some i =>
+          have hi := hw.cids o hom i hcid
+          simp only [hcid, Option.isSome_some, if_true, Option.getD_some, Option.some.injEq, Prod.mk.injEq] at hs
+          obtain ⟨rfl, _⟩ := hs
+          obtain ⟨seen0, h1, h2⟩ := hw.holds i w.caches[i] (by simp [hi])
+          exact worldOk_after_call s body unh w j o c hw hom above below p hch ha hb hc w.caches i (Nat.le_refl _) hi
+            (fun k d _ h => h) seen0 (by simpa [hi] using h1) h2
+
+/-- the worlds reachable by valid steps -/
+inductive Reachable (s : Sig) (body : PDict → Res Val) (unh : Call → Bool) : MWorld → MWorld → Prop where
+  | refl (w : MWorld) : Reachable s body unh w w
+  | step {w w1 w2 : MWorld} (st : MStep) (out : Option (Res Val × Nat)) (hv : StepValid s body unh w st)
+      (hs : stepM s body unh w st = some (w1, out)) (r : Reachable s body unh w1 w2) : Reachable s body unh w w2
+
+/-- **Every world reachable by valid steps is well-formed**: its dicts hold results of `f`, so `cached_object_call_in_any_world`
+applies to every later call - what a decorated function answers depends only on the calls behind the dict of its cache layer,
+whichever objects made them -/
+theorem worldOk_reachable (s : Sig) (body : PDict → Res Val) (unh : Call → Bool) (w w' : MWorld)
+    (r : Reachable s body unh w w') (hw : WorldOk (resultOf s body) w) : WorldOk (resultOf s body) w' := by
+  induction r with
+  | refl w => exact hw
+  | step st out hv hs _ ih => exact ih (worldOk_step s body unh _ _ st out hw hv hs)
+
+/-- … in particular every world built from the plain function alone -/
+theorem worldOk_from_init (s : Sig) (body : PDict → Res Val) (unh : Call → Bool) (w' : MWorld)
+    (r : Reachable s body unh {} w') : WorldOk (resultOf s body) w' :=
+  worldOk_reachable s body unh {} w' r (worldOk_init _)
+
 end Pyg.Props.C18
